@@ -4,6 +4,7 @@ import (
 	"fmt"
 	"reflect"
 
+	"example.test/p3/conv"
 	"example.test/p3/lib"
 	"example.test/p3/util"
 )
@@ -57,6 +58,8 @@ func main() {
 	show("after-store", h1(lib.AfterStore{AfterA: "z"}))
 
 	show("reflected-then-converted", reflectsWire()+"/"+nameOf(convertsWire(wire{WireA: 1})))
+
+	show("converted-in-other-package", conv.Reflects()+"/"+conv.NameOf())
 
 	// A value returned by a call and passed straight to a reflecting API.
 	show("call-result", util.JSON(lib.NewRet()))
